@@ -47,6 +47,10 @@ type evSpec struct {
 	Category *string `json:"category,omitempty"` // nil = missing
 	Service  *string `json:"service,omitempty"`
 	CatInt   bool    `json:"cat_int,omitempty"` // category stored as a non-string value
+	CatOdd   string  `json:"cat_odd,omitempty"` // which non-string value: "" = an int, "bytes" = []byte(CatText), "stringer" = a fmt.Stringer printing CatText
+	CatText  string  `json:"cat_text,omitempty"`
+	SvcOdd   string  `json:"svc_odd,omitempty"`
+	SvcText  string  `json:"svc_text,omitempty"`
 	// OwnToken: the event reaches the bus already carrying a "token" key (attributes copied in from a peer, or an
 	// event relayed from elsewhere): 1 = a foreign string, 2 = a number.  What is delivered carries the sensor's token.
 	OwnToken int  `json:"own_token,omitempty"`
@@ -140,6 +144,11 @@ func genC06(seed uint64, idx int, tier string) *Scenario {
 			case 0: // missing category
 			case 1:
 				e.CatInt = true
+				if r.Chance(0.6) {
+					// a non-string value whose text a filter expression would match: bytes or a fmt.Stringer
+					e.CatOdd = r.Pick([]string{"bytes", "stringer"})
+					e.CatText = r.Pick(c06Cats)
+				}
 			default:
 				c := r.Pick(c06Cats)
 				e.Category = &c
@@ -148,6 +157,10 @@ func genC06(seed uint64, idx int, tier string) *Scenario {
 			case 0:
 			case 1:
 				e.SvcInt = true
+				if r.Chance(0.6) {
+					e.SvcOdd = r.Pick([]string{"bytes", "stringer"})
+					e.SvcText = r.Pick(c06Svcs)
+				}
 			default:
 				c := r.Pick(c06Svcs)
 				e.Service = &c
@@ -194,6 +207,20 @@ func genC06(seed uint64, idx int, tier string) *Scenario {
 		sc.DrainMs = 600000 // liveness is judged after the backlog of the slow channel has drained
 	}
 	return sc
+}
+
+type c06Stringer struct{ s string }
+
+func (c c06Stringer) String() string { return c.s }
+
+func c06Odd(kind, text string, def int) interface{} {
+	switch kind {
+	case "bytes":
+		return []byte(text)
+	case "stringer":
+		return c06Stringer{text}
+	}
+	return def
 }
 
 func specValue(s *string, isInt bool) string {
@@ -264,12 +291,12 @@ func c06Run(t *testing.T, sc *Scenario, p *c06Params) (*Obs, *c06Got) {
 			key := fmt.Sprintf("%s:%d", w.Sc.Actors[ai].Name, e.Serial)
 			opts := []event.Option{event.Custom("serial", key)}
 			if e.CatInt {
-				opts = append(opts, event.Custom("category", 42))
+				opts = append(opts, event.Custom("category", c06Odd(e.CatOdd, e.CatText, 42)))
 			} else if e.Category != nil {
 				opts = append(opts, event.Category(*e.Category))
 			}
 			if e.SvcInt {
-				opts = append(opts, event.Custom("service", 7))
+				opts = append(opts, event.Custom("service", c06Odd(e.SvcOdd, e.SvcText, 7)))
 			} else if e.Service != nil {
 				opts = append(opts, event.Service(*e.Service))
 			}
